@@ -137,6 +137,7 @@ func main() {
 	runs := flag.Int("runs", 12, "peer selection: runs per case (the choice is randomised)")
 	nh := flag.Int("handlers", 150, "handler cases (chains)")
 	ngap := flag.Int("gap", 600, "height helper cases")
+	nsync := flag.Int("sync", 8, "two-node sync scenarios")
 	in := flag.String("in", "", "replay: JSONL of records to re-run")
 	flag.Parse()
 	r := hx.NewRng(hx.SeedFromEnv())
@@ -177,4 +178,5 @@ func main() {
 	genGap(o, r, *ngap)
 	genHandlers(o, r, *nh)
 	genTemp(o)
+	genSync(o, r, *nsync)
 }
